@@ -671,24 +671,29 @@ func (c *Ctx) ruleParsedMessageFresh(rr *RuleRep, pub *serveArm) {
 // ruleReaderDiscipline: readPacket reads from the reader it is given only through io.ReadFull (no per-call buffering wrapper that
 // would swallow read-ahead bytes of the next packet), allocates a fresh body buffer per packet, and serve hands it the transport.
 func (c *Ctx) ruleReaderDiscipline(rr *RuleRep) {
-	rp := c.Func("readPacket")
-	if rp == nil || len(rp.Params) == 0 {
+	rp := c.readFunc()
+	var readers []ssa.Value
+	if rp != nil {
+		readers = c.readerValues(rp)
+	}
+	if rp == nil || len(readers) == 0 {
 		rr.Lost("readPacket", "not found")
 		return
 	}
-	r := rp.Params[0]
 	ok := true
-	for _, u := range *r.Referrers() {
-		switch x := u.(type) {
-		case *ssa.Call:
-			if !isStdCall(&x.Call, "io", "ReadFull") {
+	for _, r := range readers {
+		for _, u := range *r.Referrers() {
+			switch x := u.(type) {
+			case *ssa.Call:
+				if !isStdCall(&x.Call, "io", "ReadFull") {
+					ok = false
+					rr.Bad("readPacket/reader", x.Pos(), "the transport reader is passed to %s: a wrapper created per packet (e.g. a buffered reader) reads ahead and the bytes of the following packet are thrown away with it", x.Call.String())
+				}
+			case *ssa.DebugRef:
+			default:
 				ok = false
-				rr.Bad("readPacket/reader", x.Pos(), "the transport reader is passed to %s: a wrapper created per packet (e.g. a buffered reader) reads ahead and the bytes of the following packet are thrown away with it", x.Call.String())
+				rr.Bad("readPacket/reader", u.Pos(), "the transport reader is used other than as the source of io.ReadFull (%s)", u.String())
 			}
-		case *ssa.DebugRef:
-		default:
-			ok = false
-			rr.Bad("readPacket/reader", u.Pos(), "the transport reader is used other than as the source of io.ReadFull (%s)", u.String())
 		}
 	}
 	if ok {
@@ -721,6 +726,9 @@ func (c *Ctx) ruleReaderDiscipline(rr *RuleRep) {
 				return local(c.Resolve(x.X), depth+1)
 			case *ssa.Phi:
 				for _, e := range x.Edges {
+					if isNilConst(c.Resolve(e)) {
+						continue
+					}
 					if !local(c.Resolve(e), depth+1) {
 						return false
 					}
